@@ -103,6 +103,54 @@ def dataParse (E : Engines) (doc sel : Bytes) : Parsed :=
       | .panic => .panic
     else .ok []
 
+/-! ### what `dataParse` does with the engines' results (round 5, task 3b)
+
+Finer engine parameters, so that only `ajson.JSONPath` (+ the serialisation of ONE selected value) and
+`xmlquery.Parse` + `xmlquery.Find` (+ `OutputXML` of ONE selected node) stay outside the model:
+
+* JSON: `nodes, err = ajson.JSONPath(rawMsg, pathStr)`; then for every node IN THE ORDER OF THE RESULT
+  `value, err = node.Unpack()` (the first failure ends the evaluation with an error), `results =
+  append(results, value)`, and `json.Marshal(results)` of the list (never nil: `make([]interface{}, 0)`):
+  `[` + the elements' encodings separated by `,` + `]` – `[]` when nothing was selected;
+* XML: for every node in the order of `Find`'s result `OutputXML(false)` followed by a line feed
+  (`xmlJoin`, above). -/
+
+/-- `ajson.JSONPath` and, per selected node in result order, the `encoding/json` text of its
+`Unpack()`ed value (`none` = `Unpack` fails) -/
+inductive JsonOut where
+  | nodes (vs : List (Option Bytes))
+  | err
+  | panic
+  deriving DecidableEq, Repr
+
+/-- `json.Marshal` of a list: the elements' encodings separated by commas -/
+def jsonJoin : List Bytes → Bytes
+  | [] => []
+  | [v] => v
+  | v :: w :: vs => v ++ [0x2c] ++ jsonJoin (w :: vs)
+
+/-- the `for _, node := range nodes { value, err = node.Unpack(); if err != nil { return } … }` loop -/
+def unpackAll : List (Option Bytes) → Option (List Bytes)
+  | [] => some []
+  | none :: _ => none
+  | some v :: rest => (unpackAll rest).map (fun l => v :: l)
+
+def jsonAssemble : JsonOut → Parsed
+  | .nodes vs =>
+    match unpackAll vs with
+    | some l => .ok ([0x5b] ++ jsonJoin l ++ [0x5d])
+    | none => .err
+  | .err => .err
+  | .panic => .panic
+
+structure Engines2 where
+  jsonNodes : Bytes → Bytes → JsonOut
+  xml : Bytes → Bytes → XmlOut
+
+/-- the engines of the sections above, with the JSON post-processing of `dataParse` spelled out -/
+def Engines2.toEngines (E : Engines2) : Engines :=
+  { json := fun d s => jsonAssemble (E.jsonNodes d s), xml := E.xml }
+
 /-- one URL query at one node: the fetched document, the selector, the submitter address -/
 structure Req where
   doc : Bytes
@@ -229,6 +277,48 @@ def Book.submitterOf (b : Book) (gid r : Nat) : Option Bytes :=
   | none => none
   | some ids => submitter ids r
 
+/-! ### the node around the group table (dosnode/dos_chain_handler.go, round 5 / review H #6)
+
+`Book.apply (.dissolve g)` is `pdkg.GroupDissolve` itself.  The NODE calls it only when it holds a
+share for the group: `case *onchain.LogGroupDissolve: if d.isMember(groupID) { d.dkg.GroupDissolve(groupID) }`
+with `isMember = d.dkg.GetShareSecurity(groupID) != nil`; and a request event is handled only under
+the same test.  A share exists once the key generation of the entry is certified (`genGroup`,
+pdkg_pipes.go: `group.secShare = secShare`). -/
+
+structure NodeSt where
+  book : Book
+  shares : List Nat          -- group ids whose entry holds a share (`GetShareSecurity != nil`)
+  deriving Repr
+
+def NodeSt.init : NodeSt := { book := [], shares := [] }
+
+inductive NodeOp where
+  /-- `LogGrouping` → `handleGrouping` → `pdkg.Grouping` (the bookkeeping part) -/
+  | grouping (gid : Nat) (nodeIds : List Bytes)
+  /-- the key generation of the CURRENT entry of `gid` is certified: the entry now holds a share -/
+  | certified (gid : Nat)
+  /-- `LogGroupDissolve`: `if d.isMember(groupID) { d.dkg.GroupDissolve(groupID) }` -/
+  | dissolve (gid : Nat)
+  deriving DecidableEq, Repr
+
+def NodeSt.apply (me : Bytes) (st : NodeSt) : NodeOp → NodeSt
+  | .grouping gid ids => { st with book := Book.apply me st.book (.grouping gid ids) }
+  | .certified gid =>
+    match Book.ids st.book gid with
+    | some _ => if gid ∈ st.shares then st else { st with shares := gid :: st.shares }
+    | none => st
+  | .dissolve gid =>
+    if gid ∈ st.shares then
+      { book := Book.apply me st.book (.dissolve gid), shares := st.shares.filter (fun g => g ≠ gid) }
+    else st      -- no share: the entry – if any – STAYS (and a re-announcement of the id is refused)
+
+def NodeSt.run (me : Bytes) (ops : List NodeOp) : NodeSt := ops.foldl (NodeSt.apply me) NodeSt.init
+
+/-- a request event of group `gid`: `isMember(gid)`, `groupInfo(gid)`, then `choseSubmitter`;
+`none` = the event is ignored (no share, or "No Group info") -/
+def NodeSt.submitterOf (st : NodeSt) (gid r : Nat) : Option Bytes :=
+  if gid ∈ st.shares then Book.submitterOf st.book gid r else none
+
 /-! ### line protocol (driver) -/
 
 def parsedOfTok (s : String) : Option Parsed :=
@@ -243,15 +333,52 @@ def splitNodes (p : Bytes) : List Bytes :=
     | b :: rest, cur => if b = 10 then cur.reverse :: go rest [] else go rest (b :: cur)
   go p []
 
+/-- the elements of a recorded JSON result `[e1,e2,…]`: split at the commas of the outer array
+(strings and nested arrays / objects are skipped over); `none` = not of that form (the JSON branch of
+`dataParse` cannot have produced it: shows as a disagreement) -/
+def splitJsonArray (b : Bytes) : Option (List Bytes) :=
+  match b with
+  | 0x5b :: rest =>
+    let rec go : Bytes → Nat → Bool → Bool → Bytes → List Bytes → Option (List Bytes)
+      | [], _, _, _, _, _ => none
+      | c :: cs, depth, inStr, esc, cur, acc =>
+        if inStr then
+          if esc then go cs depth true false (c :: cur) acc
+          else if c = 0x5c then go cs depth true true (c :: cur) acc
+          else if c = 0x22 then go cs depth false false (c :: cur) acc
+          else go cs depth true false (c :: cur) acc
+        else if c = 0x22 then go cs depth true false (c :: cur) acc
+        else if c = 0x5b ∨ c = 0x7b then go cs (depth + 1) false false (c :: cur) acc
+        else if c = 0x7d then go cs (depth - 1) false false (c :: cur) acc
+        else if c = 0x5d then
+          if depth = 0 then
+            (if cs.isEmpty then some (if cur.isEmpty ∧ acc.isEmpty then [] else (cur.reverse :: acc).reverse) else none)
+          else go cs (depth - 1) false false (c :: cur) acc
+        else if c = 0x2c ∧ depth = 0 then go cs 0 false false [] (cur.reverse :: acc)
+        else go cs depth false false (c :: cur) acc
+    go rest 0 false false [] []
+  | _ => none
+
 /-- the engines of a case line: what the harness observed for this (doc, sel) when the case was
-generated.  The dispatch of `dataParse` (empty selector, `$`, `/`, other), the node loop of the
-XPath branch and the final append are the model's. -/
-def recordedEngines (p : Parsed) : Engines :=
-  { json := fun _ _ => p,
+generated, cut into the engine's per-node results.  The dispatch of `dataParse` (empty selector, `$`,
+`/`, other), the nesting guard, the assembly of the JSON array, the node loop of the XPath branch and
+the final append are the model's. -/
+def recordedEngines2 (p : Parsed) : Engines2 :=
+  { jsonNodes := fun _ _ => match p with
+      | .ok b =>
+        match splitJsonArray b with
+        | some es => .nodes (es.map some)
+        | none => .nodes [some (0x3f :: b)]     -- not an array: the assembly will not reproduce it
+      | .err => .err
+      | .panic => .panic,
     xml := fun _ _ => match p with
       | .ok b => .nodes (splitNodes b)
       | .err => .err
       | .panic => .panic }
+
+/-- the engines of a case line, coarse form: the JSON array is re-assembled element by element by
+`jsonAssemble`, the XPath result node by node by `xmlJoin` -/
+def recordedEngines (p : Parsed) : Engines := (recordedEngines2 p).toEngines
 
 def showContent (E : Engines) (r : Req) : String :=
   match dataParse E r.doc r.sel with
@@ -322,7 +449,12 @@ def stepLine (padSize addrLen : Nat) (line : String) : Option String :=
   | ["grp", me, ops, gid, r] =>
     match ofHex me, parseOps ops, gid.toNat?, r.toNat? with
     | some me, some ops, some gid, some r =>
-      let b := Book.run me ops
+      -- the node's view: no key generation completes in a `grp` case (block time 0), so no share is
+      -- ever held and a dissolve event deletes nothing
+      let nops : List NodeOp := ops.map (fun o => match o with
+        | .grouping g l => NodeOp.grouping g l
+        | .dissolve g => NodeOp.dissolve g)
+      let b := (NodeSt.run me nops).book
       match Book.ids b gid with
       | none => some "nogroup"
       | some [] => some "nogroup"
